@@ -731,8 +731,14 @@ class PandasModelBase(
             subframe = self.clean_copy(res[col_list])
             subframe["_data_algebra_orig_index"] = subframe.index
             if len(order_cols) > 0:
+                # sort by partition and order columns only (stable): ties keep the incoming row order instead of
+                # being broken by the value columns of whatever ops share the step
                 subframe = self.clean_copy(
-                    subframe.sort_values(by=col_list, ascending=ascending)
+                    subframe.sort_values(
+                        by=order_cols,
+                        ascending=ascending[: len(order_cols)],
+                        kind="stable",
+                    )
                 )
             subframe[standin_name] = 1
             if len(op.partition_by) > 0:
